@@ -103,10 +103,9 @@ impl WalkForType for MemberFunction {
 
         let function_type = FunctionType::new(Rc::new(parameters), return_type, true, false);
 
-        ident.link_force_no_inherit(
-            input.user_data(),
-            Cow::Owned(TypeLayout::Function(function_type)),
-        )?;
+        // a method is a member of the class TYPE, reached through `self.name`; unlike a field it is
+        // not a variable of the class body, so its name must not become visible in that scope
+        ident.set_type_no_link(Cow::Owned(TypeLayout::Function(function_type)));
 
         Ok(ident)
     }
